@@ -34,8 +34,7 @@ def run(ctx):
         for sc in camp:
             for d in nsprop.DRIVERS:
                 counts, maxper, _ = nsplane.profile(binary, sc, d)
-                pts = list(range(1, maxper + 2, step))
-                obs += nsplane.kill_runs(binary, sc, d, pts)
+                obs += nsplane.kill_runs(binary, sc, d, nsplane.kill_points(counts, step))
                 fpts = []
                 for sysc, errs in ERR_FOR.items():
                     for w in range(1, min(counts.get(sysc, 0), 6 if ctx.tier == "quick" else 40) + 1):
